@@ -124,19 +124,91 @@ theorem RootsOk.set {p : GProg} {σ : St} (hr : RootsOk p σ.root) {m : Nat} {n 
   · rw [alookup_aset_ne _ _ hk] at h
     exact hr m' n' r h
 
-/-- The invariant statement for all functions of the mutual block at one fuel. -/
-def RootsInv (p : GProg) (f : Nat) : Prop :=
-  (∀ m e σ σ' lt, RootsOk p σ.root → linkTy f p m e σ = .ok (σ', lt) → RootsOk p σ'.root) ∧
-  (∀ m n σ σ', RootsOk p σ.root → linkNamed f p m n σ = .ok σ' → RootsOk p σ'.root) ∧
-  (∀ o m i fs σ σ', RootsOk p σ.root → linkFields f p o m i fs σ = .ok σ' → RootsOk p σ'.root) ∧
-  (∀ m n σ σ', RootsOk p σ.root → linkConst f p m n σ = .ok σ' → RootsOk p σ'.root) ∧
-  (∀ m v t σ σ' v', RootsOk p σ.root → linkVal f p m v t σ = .ok (σ', v') → RootsOk p σ'.root) ∧
-  (∀ m vs t σ σ' vs', RootsOk p σ.root → linkVals f p m vs t σ = .ok (σ', vs') → RootsOk p σ'.root) ∧
-  (∀ m kvs kt vt σ σ' kvs', RootsOk p σ.root → linkPairs f p m kvs kt vt σ = .ok (σ', kvs') → RootsOk p σ'.root) ∧
-  (∀ m sm sn j fs lit σ σ' lit', RootsOk p σ.root →
-      linkSFields f p m sm sn j fs lit σ = .ok (σ', lit') → RootsOk p σ'.root)
+/-- resolution of a service reference: `resolveSvc` answers with `resolveService`'s answer -/
+theorem resolveServiceF_fuel_irrelevant (p : GProg) :
+    ∀ (f : Nat) (m : Nat) (n : Name), n.length < f → ∀ g, n.length < g →
+      resolveServiceF p f m n = resolveServiceF p g m n := by
+  intro f
+  induction f with
+  | zero => intro m n h; omega
+  | succ f ih =>
+    intro m n hf g hg
+    cases g with
+    | zero => omega
+    | succ g =>
+      simp only [resolveServiceF]
+      split
+      · rfl
+      · split
+        · rfl
+        · rename_i mn inm hs
+          split
+          · rfl
+          · have hl := splitInclude_length hs
+            exact ih _ _ (by omega) g (by omega)
 
-theorem rootsInv (p : GProg) : ∀ f, RootsInv p f := by
+theorem resolveSvc_resolves (p : GProg) (o : Orders) :
+    ∀ (fuel m : Nat) (name : Name) (σ σ' : St) (k : Nat × Name),
+      resolveSvc fuel p o m name σ = .ok (σ', k) → resolveService p m name = some k := by
+  intro fuel
+  induction fuel with
+  | zero => intro m name σ σ' k h; simp [resolveSvc] at h
+  | succ f ih =>
+    intro m name σ σ' k h
+    simp only [resolveSvc] at h
+    split at h
+    · rename_i s hs
+      split at h
+      · cases h; exact resolveService_local hs
+      · cases h
+      · cases h
+    · rename_i hl
+      split at h
+      · cases h
+      · rename_i mn inm hs
+        split at h
+        · cases h
+        · rename_i m' hi
+          have := ih _ _ _ _ _ h
+          unfold resolveService at this ⊢
+          have h1 : resolveServiceF p (name.length + 1) m name = resolveServiceF p name.length m' inm := by
+            simp only [resolveServiceF, hl, hs, hi]
+          rw [h1]
+          have hlen := splitInclude_length hs
+          rw [resolveServiceF_fuel_irrelevant p _ _ _ (by omega) (inm.length + 1) (by omega)]
+          exact this
+
+/-- An invariant of the link state that every update the linker performs preserves. The
+updates of `root` and `vpar` come with what is known at that point: the typedef's target has
+been linked and resolved; the parent name has been resolved. -/
+structure LinkInv (p : GProg) (I : St → Prop) : Prop where
+  tflag : ∀ σ x, I σ → I { σ with tflag := x }
+  cflag : ∀ σ x, I σ → I { σ with cflag := x }
+  ctype : ∀ σ x, I σ → I { σ with ctype := x }
+  cval : ∀ σ x, I σ → I { σ with cval := x }
+  reent : ∀ σ x, I σ → I { σ with reent := x }
+  fflag : ∀ σ x, I σ → I { σ with fflag := x }
+  vflag : ∀ σ x, I σ → I { σ with vflag := x }
+  mark : ∀ o i σ, I σ → I (ownerMark o i σ)
+  setd : ∀ o i v σ, I σ → I (ownerSetDflt o i v σ)
+  root : ∀ σ m n target lt, I σ → lookupType p m n = some (.typedef target) →
+    resolveExpr p m target = some lt → I { σ with root := aset (m, n) (rootIn p σ lt) σ.root }
+  vpar : ∀ σ m n s pname pk, I σ → lookupService p m n = some s → s.parent = some pname →
+    resolveService p m pname = some pk → I { σ with vpar := aset (m, n) pk σ.vpar }
+
+/-- The invariant statement for all functions of the mutual block at one fuel. -/
+def BlockInv (p : GProg) (I : St → Prop) (f : Nat) : Prop :=
+  (∀ m e σ σ' lt, I σ → linkTy f p m e σ = .ok (σ', lt) → I σ') ∧
+  (∀ m n σ σ', I σ → linkNamed f p m n σ = .ok σ' → I σ') ∧
+  (∀ o m i fs σ σ', I σ → linkFields f p o m i fs σ = .ok σ' → I σ') ∧
+  (∀ m n σ σ', I σ → linkConst f p m n σ = .ok σ' → I σ') ∧
+  (∀ m v t σ σ' v', I σ → linkVal f p m v t σ = .ok (σ', v') → I σ') ∧
+  (∀ m vs t σ σ' vs', I σ → linkVals f p m vs t σ = .ok (σ', vs') → I σ') ∧
+  (∀ m kvs kt vt σ σ' kvs', I σ → linkPairs f p m kvs kt vt σ = .ok (σ', kvs') → I σ') ∧
+  (∀ m sm sn j fs lit σ σ' lit', I σ →
+      linkSFields f p m sm sn j fs lit σ = .ok (σ', lit') → I σ')
+
+theorem blockInv (p : GProg) (I : St → Prop) (hI : LinkInv p I) : ∀ f, BlockInv p I f := by
   intro f
   induction f with
   | zero =>
@@ -195,13 +267,13 @@ theorem rootsInv (p : GProg) : ∀ f, RootsInv p f := by
         · split at h
           · rename_i σ1 lt hty
             cases h
-            have hr1 : RootsOk p σ1.root := iTy _ _ _ _ _ (by exact hr) hty
-            exact RootsOk.set hr1 hl (linkTy_resolves p _ _ _ _ _ _ hty)
+            have hr1 : I σ1 := iTy _ _ _ _ _ (hI.tflag _ _ hr) hty
+            exact hI.root _ _ _ _ _ hr1 hl (linkTy_resolves p _ _ _ _ _ _ hty)
           · cases h
           · cases h
       · split at h
         · cases h; exact hr
-        · exact iFields _ _ _ _ _ _ (by exact hr) h
+        · exact iFields _ _ _ _ _ _ (hI.tflag _ _ hr) h
     · -- linkFields
       intro o m i fs σ σ' hr h
       cases fs with
@@ -210,16 +282,14 @@ theorem rootsInv (p : GProg) : ∀ f, RootsInv p f := by
         simp only [linkFields] at h
         split at h
         · rename_i σ1 lt hty
-          have hr1 : RootsOk p σ1.root := iTy _ _ _ _ _ hr hty
-          have hr2 : RootsOk p (ownerMark o i σ1).root := by
-            cases o <;> exact hr1
+          have hr1 : I σ1 := iTy _ _ _ _ _ hr hty
+          have hr2 : I (ownerMark o i σ1) := hI.mark _ _ _ hr1
           split at h
           · exact iFields _ _ _ _ _ _ hr2 h
           · split at h
             · rename_i σ3 v hv
-              have hr3 : RootsOk p σ3.root := iVal _ _ _ _ _ _ hr2 hv
-              refine iFields _ _ _ _ _ _ ?_ h
-              cases o <;> exact hr3
+              have hr3 : I σ3 := iVal _ _ _ _ _ _ hr2 hv
+              exact iFields _ _ _ _ _ _ (hI.setd _ _ _ _ hr3) h
             · cases h
             · cases h
         · cases h
@@ -233,13 +303,12 @@ theorem rootsInv (p : GProg) : ∀ f, RootsInv p f := by
         · cases h; exact hr
         · split at h
           · rename_i σ1 lt hty
-            have hr1 : RootsOk p σ1.root := iTy _ _ _ _ _ (by exact hr) hty
+            have hr1 : I σ1 := iTy _ _ _ _ _ (hI.cflag _ _ hr) hty
             split at h
             · rename_i σ2 v hv
               cases h
-              have hr1' : RootsOk p ({ σ1 with ctype := (m, n) :: σ1.ctype } : St).root := hr1
-              have hr2 : RootsOk p σ2.root := iVal _ _ _ _ _ _ hr1' hv
-              exact hr2
+              have hr2 : I σ2 := iVal _ _ _ _ _ _ (hI.ctype _ _ hr1) hv
+              exact hI.cval _ _ hr2
             · cases h
             · cases h
           · cases h
@@ -269,7 +338,7 @@ theorem rootsInv (p : GProg) : ∀ f, RootsInv p f := by
         · split at h
           · cases h
           · split at h
-            · rename_i σ1 fs' hsf; cases h; exact iSF _ _ _ _ _ _ _ _ _ (by exact hr) hsf
+            · rename_i σ1 fs' hsf; cases h; exact iSF _ _ _ _ _ _ _ _ _ (hI.reent _ _ hr) hsf
             · cases h
             · cases h
         · split at h
@@ -280,7 +349,7 @@ theorem rootsInv (p : GProg) : ∀ f, RootsInv p f := by
       · -- struct
         split at h
         · split at h
-          · rename_i σ1 fs' hsf; cases h; exact iSF _ _ _ _ _ _ _ _ _ (by exact hr) hsf
+          · rename_i σ1 fs' hsf; cases h; exact iSF _ _ _ _ _ _ _ _ _ (hI.reent _ _ hr) hsf
           · cases h
           · cases h
         · cases h
@@ -313,7 +382,7 @@ theorem rootsInv (p : GProg) : ∀ f, RootsInv p f := by
           · cases h; exact hr
           · split at h
             · exact iVal _ _ _ _ _ _ hr h
-            · exact iVal _ _ _ _ _ _ (by exact hr) h
+            · exact iVal _ _ _ _ _ _ (hI.reent _ _ hr) h
       · -- uref
         split at h
         · split at h
@@ -403,20 +472,20 @@ theorem forEach_inv {α : Type} (I : St → Prop) (g : α → St → Res St)
     · cases h
     · cases h
 
-theorem linkFunc_roots (p : GProg) (fuel m : Nat) (svc : Name) (fn : GFunc) (σ σ' : St)
-    (hr : RootsOk p σ.root) (h : linkFunc fuel p m svc fn σ = .ok σ') : RootsOk p σ'.root := by
-  obtain ⟨iTy, _, iFields, _, _, _, _, _⟩ := rootsInv p fuel
+theorem linkFunc_inv (p : GProg) (I : St → Prop) (hI : LinkInv p I) (fuel m : Nat) (svc : Name) (fn : GFunc) (σ σ' : St)
+    (hr : I σ) (h : linkFunc fuel p m svc fn σ = .ok σ') : I σ' := by
+  obtain ⟨iTy, _, iFields, _, _, _, _, _⟩ := blockInv p I hI fuel
   unfold linkFunc at h
   split at h
   · cases h; exact hr
   · split at h
     · rename_i σ1 ha
-      have hr1 : RootsOk p σ1.root := iFields _ _ _ _ _ _ (by exact hr) ha
+      have hr1 : I σ1 := iFields _ _ _ _ _ _ (hI.fflag _ _ hr) ha
       split at h
       · cases h; exact hr1
       · split at h
         · rename_i σ2 hret
-          have hr2 : RootsOk p σ2.root := by
+          have hr2 : I σ2 := by
             split at hret
             · split at hret
               · rename_i σ2' _ hty; cases hret; exact iTy _ _ _ _ _ hr1 hty
@@ -425,7 +494,7 @@ theorem linkFunc_roots (p : GProg) (fuel m : Nat) (svc : Name) (fn : GFunc) (σ 
             · cases hret; exact hr1
           split at h
           · rename_i σ3 he
-            have hr3 : RootsOk p σ3.root := iFields _ _ _ _ _ _ hr2 he
+            have hr3 : I σ3 := iFields _ _ _ _ _ _ hr2 he
             split at h
             · cases h; exact hr3
             · cases h
@@ -436,37 +505,39 @@ theorem linkFunc_roots (p : GProg) (fuel m : Nat) (svc : Name) (fn : GFunc) (σ 
     · cases h
     · cases h
 
-theorem service_roots (p : GProg) (o : Orders) :
+theorem service_inv (p : GProg) (I : St → Prop) (hI : LinkInv p I) (o : Orders) :
     ∀ (f : Nat),
-      (∀ m n σ σ', RootsOk p σ.root → linkService f p o m n σ = .ok σ' → RootsOk p σ'.root) ∧
-      (∀ m n σ σ' k, RootsOk p σ.root → resolveSvc f p o m n σ = .ok (σ', k) → RootsOk p σ'.root) := by
+      (∀ m n σ σ', I σ → linkService f p o m n σ = .ok σ' → I σ') ∧
+      (∀ m n σ σ' k, I σ → resolveSvc f p o m n σ = .ok (σ', k) → I σ') := by
   intro f
   induction f with
   | zero => exact ⟨by intro m n σ σ' _ h; simp [linkService] at h, by intro m n σ σ' k _ h; simp [resolveSvc] at h⟩
   | succ f ih =>
     obtain ⟨iS, iR⟩ := ih
-    have hfn : ∀ (m : Nat) (n : Name) (s : GService) (fname : Name) (σ σ' : St), RootsOk p σ.root →
+    have hfn : ∀ (m : Nat) (n : Name) (s : GService) (fname : Name) (σ σ' : St), I σ →
         (match findFunc fname s.funcs with
           | some g => linkFunc f p m n g σ
-          | none => Res.ok σ) = .ok σ' → RootsOk p σ'.root := by
+          | none => Res.ok σ) = .ok σ' → I σ' := by
       intro m n s fname σ σ' hr h
       split at h
-      · exact linkFunc_roots p _ _ _ _ _ _ hr h
+      · exact linkFunc_inv p I hI _ _ _ _ _ _ hr h
       · cases h; exact hr
     refine ⟨?_, ?_⟩
     · intro m n σ σ' hr h
       simp only [linkService] at h
       split at h
       · cases h
-      · rename_i s _
+      · rename_i s hls
         split at h
         · cases h; exact hr
         · split at h
-          · exact forEach_inv (fun σ => RootsOk p σ.root) _ (fun x σ σ' => hfn m n s x σ σ') _ _ _ (by exact hr) h
-          · split at h
+          · exact forEach_inv I _ (fun x σ σ' => hfn m n s x σ σ') _ _ _ (hI.vflag _ _ hr) h
+          · rename_i pname hpn
+            split at h
             · rename_i σ1 pk hres
-              have hr1 : RootsOk p σ1.root := iR _ _ _ _ _ (by exact hr) hres
-              exact forEach_inv (fun σ => RootsOk p σ.root) _ (fun x σ σ' => hfn m n s x σ σ') _ _ _ (by exact hr1) h
+              have hr1 : I σ1 := iR _ _ _ _ _ (hI.vflag _ _ hr) hres
+              exact forEach_inv I _ (fun x σ σ' => hfn m n s x σ σ') _ _ _
+                (hI.vpar _ _ _ _ _ _ hr1 hls hpn (resolveSvc_resolves p o _ _ _ _ _ _ hres)) h
             · cases h
             · cases h
     · intro m n σ σ' k hr h
@@ -482,42 +553,42 @@ theorem service_roots (p : GProg) (o : Orders) :
           · cases h
           · exact iR _ _ _ _ _ hr h
 
-theorem prelinkFuncs_roots (p : GProg) (fuel : Nat) (o : Orders) (pre : Bool) (m : Nat) (svcs : List Name)
-    (σ σ' : St) (hr : RootsOk p σ.root) (h : prelinkFuncs fuel p o pre m svcs σ = .ok σ') : RootsOk p σ'.root := by
+theorem prelinkFuncs_inv (p : GProg) (I : St → Prop) (hI : LinkInv p I) (fuel : Nat) (o : Orders) (pre : Bool) (m : Nat) (svcs : List Name)
+    (σ σ' : St) (hr : I σ) (h : prelinkFuncs fuel p o pre m svcs σ = .ok σ') : I σ' := by
   unfold prelinkFuncs at h
   split at h
-  · refine forEach_inv (fun σ => RootsOk p σ.root) _ ?_ _ _ _ hr h
+  · refine forEach_inv I _ ?_ _ _ _ hr h
     intro n σa σb hi hx
     unfold linkFuncsOf at hx
     split at hx
-    · refine forEach_inv (fun σ => RootsOk p σ.root) _ ?_ _ _ _ hi hx
+    · refine forEach_inv I _ ?_ _ _ _ hi hx
       intro fname σc σd hi' hx'
       split at hx'
-      · exact linkFunc_roots p _ _ _ _ _ _ hi' hx'
+      · exact linkFunc_inv p I hI _ _ _ _ _ _ hi' hx'
       · cases hx'; exact hi'
     · cases hx; exact hi
   · cases h; exact hr
 
-theorem linkModule_roots (p : GProg) (fuel : Nat) (o : Orders) (pre : Bool) (m : Nat) (σ σ' : St)
-    (hr : RootsOk p σ.root) (h : linkModule fuel p o pre m σ = .ok σ') : RootsOk p σ'.root := by
-  obtain ⟨_, iNamed, _, iConst, _, _, _, _⟩ := rootsInv p fuel
+theorem linkModule_inv (p : GProg) (I : St → Prop) (hI : LinkInv p I) (fuel : Nat) (o : Orders) (pre : Bool) (m : Nat) (σ σ' : St)
+    (hr : I σ) (h : linkModule fuel p o pre m σ = .ok σ') : I σ' := by
+  obtain ⟨_, iNamed, _, iConst, _, _, _, _⟩ := blockInv p I hI fuel
   unfold linkModule at h
   split at h
   · rename_i σ1 ht
-    have hr1 : RootsOk p σ1.root :=
-      forEach_inv (fun σ => RootsOk p σ.root) _ (fun n σ σ' hi hx => iNamed _ _ _ _ hi hx) _ _ _ hr ht
+    have hr1 : I σ1 :=
+      forEach_inv I _ (fun n σ σ' hi hx => iNamed _ _ _ _ hi hx) _ _ _ hr ht
     split at h
     · rename_i σ2 hc
-      have hr2 : RootsOk p σ2.root :=
-        forEach_inv (fun σ => RootsOk p σ.root) _ (fun n σ σ' hi hx => iConst _ _ _ _ hi hx) _ _ _ hr1 hc
+      have hr2 : I σ2 :=
+        forEach_inv I _ (fun n σ σ' hi hx => iConst _ _ _ _ hi hx) _ _ _ hr1 hc
       split at h
       · rename_i σ3 hpre
-        have hr3 : RootsOk p σ3.root := prelinkFuncs_roots p _ _ _ _ _ _ _ hr2 hpre
+        have hr3 : I σ3 := prelinkFuncs_inv p I hI _ _ _ _ _ _ _ hr2 hpre
         split at h
         · rename_i σ4 hs
-          have hr4 : RootsOk p σ4.root :=
-            forEach_inv (fun σ => RootsOk p σ.root) _
-              (fun n σ σ' hi hx => (service_roots p o fuel).1 _ _ _ _ hi hx) _ _ _ hr3 hs
+          have hr4 : I σ4 :=
+            forEach_inv I _
+              (fun n σ σ' hi hx => (service_inv p I hI o fuel).1 _ _ _ _ hi hx) _ _ _ hr3 hs
           split at h
           · cases h
           · cases h; exact hr4
@@ -530,9 +601,9 @@ theorem linkModule_roots (p : GProg) (fuel : Nat) (o : Orders) (pre : Bool) (m :
   · cases h
   · cases h
 
-theorem walk_roots (p : GProg) (fuel : Nat) (o : Orders) (pre : Bool) :
-    ∀ (wf : Nat) (queue visited : List Nat) (σ σ' : St), RootsOk p σ.root →
-      walk fuel p o pre wf queue visited σ = .ok σ' → RootsOk p σ'.root := by
+theorem walk_inv (p : GProg) (I : St → Prop) (hI : LinkInv p I) (fuel : Nat) (o : Orders) (pre : Bool) :
+    ∀ (wf : Nat) (queue visited : List Nat) (σ σ' : St), I σ →
+      walk fuel p o pre wf queue visited σ = .ok σ' → I σ' := by
   intro wf
   induction wf with
   | zero => intro q v σ σ' hr h; simp only [walk] at h; cases h; exact hr
@@ -546,14 +617,15 @@ theorem walk_roots (p : GProg) (fuel : Nat) (o : Orders) (pre : Bool) :
       · exact ih _ _ _ _ hr h
       · split at h
         · rename_i σ1 hm
-          exact ih _ _ _ _ (linkModule_roots p _ _ _ _ _ _ hr hm) h
+          exact ih _ _ _ _ (linkModule_inv p I hI _ _ _ _ _ _ hr hm) h
         · cases h
         · cases h
 
-/-- **Every root stored by a successful compilation is the declarative root**, whatever the
-visit orders, with or without the hook's pre-linking, for any fuel. -/
-theorem compile_roots_sound {pre : Bool} {fuel : Nat} {o : Orders} {src : Program} {c : Compiled}
-    (h : compileWith pre fuel o src = .ok c) : RootsOk c.prog c.st.root := by
+/-- A `LinkInv` invariant that holds of the initial state holds of the final state of every
+successful compilation — whatever the visit orders, with or without the hook, for any fuel. -/
+theorem compile_inv {pre : Bool} {fuel : Nat} {o : Orders} {src : Program} {c : Compiled}
+    (I : GProg → St → Prop) (hI : ∀ p, LinkInv p (I p)) (h0 : ∀ p, I p St.init)
+    (h : compileWith pre fuel o src = .ok c) : I c.prog c.st := by
   unfold compileWith at h
   split at h
   · cases h
@@ -561,8 +633,61 @@ theorem compile_roots_sound {pre : Bool} {fuel : Nat} {o : Orders} {src : Progra
     split at h
     · rename_i σ hw
       cases h
-      exact walk_roots p _ _ _ _ _ _ _ _ (RootsOk.nil p) hw
+      exact walk_inv p (I p) (hI p) _ _ _ _ _ _ _ _ (h0 p) hw
     · cases h
     · cases h
+
+theorem rootsLinkInv (p : GProg) : LinkInv p (fun σ => RootsOk p σ.root) where
+  tflag _ _ h := h
+  cflag _ _ h := h
+  ctype _ _ h := h
+  cval _ _ h := h
+  reent _ _ h := h
+  fflag _ _ h := h
+  vflag _ _ h := h
+  mark o _ _ h := by cases o <;> exact h
+  setd o _ _ _ h := by cases o <;> exact h
+  root _ _ _ _ _ h hl hres := RootsOk.set h hl hres
+  vpar _ _ _ _ _ _ h _ _ _ := h
+
+/-- **Every root stored by a successful compilation is the declarative root**, whatever the
+visit orders, with or without the hook's pre-linking, for any fuel. -/
+theorem compile_roots_sound {pre : Bool} {fuel : Nat} {o : Orders} {src : Program} {c : Compiled}
+    (h : compileWith pre fuel o src = .ok c) : RootsOk c.prog c.st.root :=
+  compile_inv (fun p σ => RootsOk p σ.root) rootsLinkInv (fun p => RootsOk.nil p) h
+
+/-- all parents stored so far are what the declared parent name resolves to -/
+def ParentsOk (p : GProg) (vpar : List ((Nat × Name) × (Nat × Name))) : Prop :=
+  ∀ m n pk, alookup (m, n) vpar = some pk →
+    ∃ s pname, lookupService p m n = some s ∧ s.parent = some pname ∧ resolveService p m pname = some pk
+
+theorem parentsLinkInv (p : GProg) : LinkInv p (fun σ => ParentsOk p σ.vpar) where
+  tflag _ _ h := h
+  cflag _ _ h := h
+  ctype _ _ h := h
+  cval _ _ h := h
+  reent _ _ h := h
+  fflag _ _ h := h
+  vflag _ _ h := h
+  mark o _ _ h := by cases o <;> exact h
+  setd o _ _ _ h := by cases o <;> exact h
+  root _ _ _ _ _ h _ _ := h
+  vpar σ m n s pname pk h hl hp hr := by
+    intro m' n' pk' hlook
+    by_cases hk : (m, n) = (m', n')
+    · cases hk
+      rw [alookup_aset_self] at hlook
+      cases hlook
+      exact ⟨s, pname, hl, hp, hr⟩
+    · rw [alookup_aset_ne _ _ hk] at hlook
+      exact h m' n' pk' hlook
+
+/-- **Every `ServiceSpec.Parent` stored by a successful compilation is the service the
+declared parent name resolves to** (local name first, else include-qualified), whatever the
+visit orders. -/
+theorem compile_parents_sound {pre : Bool} {fuel : Nat} {o : Orders} {src : Program} {c : Compiled}
+    (h : compileWith pre fuel o src = .ok c) : ParentsOk c.prog c.st.vpar :=
+  compile_inv (fun p σ => ParentsOk p σ.vpar) parentsLinkInv
+    (fun p => by intro m n pk hl; simp [St.init, alookup] at hl) h
 
 end ThriftVerif.Compile
